@@ -15,38 +15,45 @@ def hd (p : Bytes) : Nat := p.headD 0
 
 /-- value of `c` as a digit of `base` (8, 10 or 16) -/
 def digitVal (base c : Nat) : Option Nat :=
-  let v := if 48 ≤ c ∧ c ≤ 57 then some (c - 48)
-           else if 97 ≤ c ∧ c ≤ 122 then some (c - 87)
-           else if 65 ≤ c ∧ c ≤ 90 then some (c - 55)
-           else none
-  match v with
-  | some d => if d < base then some d else none
-  | none => none
+  if 48 ≤ c ∧ c ≤ 57 then (if c - 48 < base then some (c - 48) else none)
+  else if 97 ≤ c ∧ c ≤ 122 then (if c - 87 < base then some (c - 87) else none)
+  else if 65 ≤ c ∧ c ≤ 90 then (if c - 55 < base then some (c - 55) else none)
+  else none
 
 def digitsVal (base : Nat) (ds : Bytes) : Nat := ds.foldl (fun a c => a * base + (digitVal base c).getD 0) 0
+
+/-- optional sign: (negative, text after the sign, bytes consumed) -/
+def splitSign (p : Bytes) : Bool × Bytes × Nat :=
+  match p with
+  | 45 :: r => (true, r, 1)
+  | 43 :: r => (false, r, 1)
+  | _ => (false, p, 0)
+
+/-- base 0 detection: (base, text where the digits start, bytes of the `0x` prefix) -/
+def detectBase (s : Bytes) : Nat × Bytes × Nat :=
+  match s with
+  | 48 :: x :: r => if x = 120 ∨ x = 88 then (16, r, 2) else (8, s, 0)
+  | 48 :: [] => (8, s, 0)
+  | _ => (10, s, 0)
+
+/-- saturation to int64 with ERANGE -/
+def clamp (neg : Bool) (mag n : Nat) : Int × Nat × Bool :=
+  if neg then (if mag > 2 ^ 63 then (-(2 ^ 63 : Int), n, true) else (-(mag : Int), n, false))
+  else (if mag ≥ 2 ^ 63 then ((2 ^ 63 - 1 : Int), n, true) else ((mag : Int), n, false))
+
+def strtollFrom (neg : Bool) (k : Nat) (s : Bytes) : Int × Nat × Bool :=
+  let b := detectBase s
+  let ds := b.2.1.takeWhile fun c => (digitVal b.1 c).isSome
+  if ds.isEmpty then
+    if b.1 = 16 then (0, k + 1, false)      -- "0x" without a hex digit: only the "0" is consumed
+    else (0, 0, false)
+  else clamp neg (digitsVal b.1 ds) (k + b.2.2 + ds.length)
 
 /-- glibc `strtoll(p, &pe, 0)` on text that does not start with white space:
     (value, bytes consumed, ERANGE). -/
 def strtoll (p : Bytes) : Int × Nat × Bool :=
-  let (neg, s, k) : Bool × Bytes × Nat :=
-    match p with
-    | 45 :: r => (true, r, 1)
-    | 43 :: r => (false, r, 1)
-    | _ => (false, p, 0)
-  let (base, s', k') : Nat × Bytes × Nat :=
-    match s with
-    | 48 :: x :: r => if x = 120 ∨ x = 88 then (16, r, k + 2) else (8, s, k)
-    | 48 :: [] => (8, s, k)
-    | _ => (10, s, k)
-  let ds := s'.takeWhile fun c => (digitVal base c).isSome
-  if ds.isEmpty then
-    if base = 16 then (0, k + 1, false)      -- "0x" without a hex digit: only the "0" is consumed
-    else (0, 0, false)
-  else
-    let mag := digitsVal base ds
-    let n := k' + ds.length
-    if neg then (if mag > 2 ^ 63 then (-(2 ^ 63 : Int), n, true) else (-(mag : Int), n, false))
-    else (if mag ≥ 2 ^ 63 then ((2 ^ 63 - 1 : Int), n, true) else ((mag : Int), n, false))
+  let sg := splitSign p
+  strtollFrom sg.1 sg.2.2 sg.2.1
 
 /-- the bytes skipped at value position: `' ' \t \n \r ,` -/
 def isSep (c : Nat) : Bool := c = 32 ∨ c = 9 ∨ c = 10 ∨ c = 13 ∨ c = 44
@@ -94,6 +101,11 @@ def litFalse : Bytes := [102, 97, 108, 115, 101]
 
 abbrev VRes := Except PErr (Option JVal × Bytes)
 
+/-- append the node if one was created -/
+def pushOpt {α : Type} (acc : List α) : Option α → List α
+  | some v => acc ++ [v]
+  | none => acc
+
 mutual
   /-- `_jbl_parse_value(ctx, lvl, parent, key, klidx, p)`: the node created (none when it returned at a `]`)
       and the returned pointer -/
@@ -130,12 +142,9 @@ mutual
       match parseValue sd f (lvl + 1) p with
       | .error e => .error e
       | .ok (ov, p') =>
-        let acc' := match ov with
-          | some v => acc ++ [v]
-          | none => acc
         match p' with
-        | 93 :: r => .ok (some (.arr acc'), r)
-        | _ => parseArr sd f lvl p' acc'
+        | 93 :: r => .ok (some (.arr (pushOpt acc ov)), r)
+        | _ => parseArr sd f lvl p' (pushOpt acc ov)
 
   /-- the `while (1)` loop of the `{` case -/
   def parseObj (sd : SD) : Nat → Nat → Bytes → List (Bytes × JVal) → VRes
@@ -152,11 +161,7 @@ mutual
           | some k =>
             match parseValue sd f (lvl + 1) p' with
             | .error e => .error e
-            | .ok (ov, p'') =>
-              let acc' := match ov with
-                | some v => acc ++ [(k, v)]
-                | none => acc
-              parseObj sd f lvl p'' acc'
+            | .ok (ov, p'') => parseObj sd f lvl p'' (pushOpt acc (ov.map fun v => (k, v)))
 end
 
 /-- `_jbl_skip_bom` -/
